@@ -215,3 +215,19 @@ func VerifControlMsg(from, to netip.Addr, idx uint32) []byte {
 	b, _ := req.Marshal()
 	return b
 }
+
+// VerifRelayWrap makes this (relay) node forward `inner` to target over its tunnel to target, using the relay
+// record it holds there for claimedPeer -- what a relay does for relayed traffic, with the inner bytes and the
+// record chosen by the harness (a relay that lies). Returns false if tunnel or record do not exist.
+func (c *Control) VerifRelayWrap(target, claimedPeer netip.Addr, inner []byte) bool {
+	hi := c.f.hostMap.QueryVpnAddr(target)
+	if hi == nil {
+		return false
+	}
+	relay, ok := hi.relayState.QueryRelayForByIp(claimedPeer)
+	if !ok {
+		return false
+	}
+	c.f.SendVia(hi, relay, inner, make([]byte, 12), make([]byte, mtu)[:0], false, 0)
+	return true
+}
